@@ -76,6 +76,24 @@ def sh(cmd, cwd=None, env=None, timeout=None, stdin=None, stdout=None):
                           **({} if stdout is not None else {"capture_output": False, "stdout": subprocess.PIPE}))
 
 
+def fresh_target(tdir, release, features, env, cwd=None):
+    """cargo decides by modification times whether the path dependency /repo has to be rebuilt; a tree whose *content* differs from
+    what the artifacts in this target directory were built from (restored copy, checkout with odd timestamps, artifacts carried
+    over from elsewhere) must never be served from a stale build: a content hash per target directory, `cargo clean -p` on change.
+    Returns (stamp file, digest) — the caller writes the stamp after a successful build."""
+    h = hashlib.sha256()
+    for f in sorted(list(REPO.glob("src/**/*.rs")) + list(REPO.glob("fpdec-core/src/**/*.rs")) + list(REPO.glob("fpdec-macros/src/**/*.rs"))
+                    + list(REPO.glob("**/Cargo.toml")) + [HARNESS / "src/main.rs", HARNESS / "src/fmtgen.rs"]):
+        if "/target" in str(f):
+            continue
+        h.update(str(f).encode()); h.update(f.read_bytes())
+    stamp = tdir / f".verif-src-{'release' if release else 'debug'}-{features.replace(',', '+') or 'default'}.sha256"
+    if tdir.exists() and (not stamp.exists() or stamp.read_text() != h.hexdigest()):
+        subprocess.run(["cargo", "clean", "--offline", "--target-dir", str(tdir), "-p", "fpdec", "-p", "fpdec-core", "-p", "fpdec-macros"]
+                       + (["--release"] if release else []), cwd=cwd or HARNESS, capture_output=True, text=True, env=env)
+    return stamp, h.hexdigest()
+
+
 class Run:
     def __init__(self, prop, tier, seed):
         self.prop, self.tier, self.seed = prop, tier, seed
@@ -215,8 +233,12 @@ open Lean Elab Command in
         toml = (HARNESS / "Cargo.toml.in").read_text().replace("@REPO@", str(REPO))
         if not (HARNESS / "Cargo.toml").exists() or (HARNESS / "Cargo.toml").read_text() != toml:
             (HARNESS / "Cargo.toml").write_text(toml)
+        stamp, digest = fresh_target(tdir, "--release" in args, features, env)
         t = time.time()
         r = subprocess.run(cmd, cwd=HARNESS, capture_output=True, text=True, env=env)
+        if r.returncode == 0:
+            tdir.mkdir(parents=True, exist_ok=True)
+            stamp.write_text(digest)
         self.say(f"[cargo] {profile} features='{features}' rc={r.returncode} ({time.time() - t:.1f}s)")
         if r.returncode != 0:
             (self.wd / f"cargo-{profile}.log").write_text(r.stdout + r.stderr)
@@ -567,6 +589,7 @@ fpdec = {{ path = "{REPO}" }}
 
     items = list(enumerate(lits))
     write_prog(items)
+    lit_stamp, lit_digest = fresh_target(HARNESS / "target-lit", False, "", ENV, cwd=crate)
     t = time.time()
     r = subprocess.run(["cargo", "build", "--offline", "--message-format=json", "--target-dir", str(HARNESS / "target-lit")],
                        cwd=crate, capture_output=True, text=True, env=ENV)
@@ -589,6 +612,9 @@ fpdec = {{ path = "{REPO}" }}
     r = subprocess.run(["cargo", "run", "--offline", "--quiet", "--target-dir", str(HARNESS / "target-lit")], cwd=crate,
                        capture_output=True, text=True, env=ENV)
     macro_out = {}
+    if r.returncode == 0:
+        (HARNESS / "target-lit").mkdir(parents=True, exist_ok=True)
+        lit_stamp.write_text(lit_digest)
     if r.returncode != 0:
         run.broken_obligations.append("C18: second rustc run (accepted literals only) failed: " + r.stderr[-300:])
     for line in r.stdout.split("\n"):
